@@ -77,6 +77,15 @@ func injectFaults(lines []string, r *Rng) []fault {
 			// a second copy right after the first
 			d := insertAt(lines, end, blk)
 			out = append(out, fault{"second " + kw, d, end + 1, end + len(blk)})
+			if kw == "Title" || kw == "Version" || kw == "BaseUrl" {
+				// the required parameter written as an empty quoted string: alone, and in front of the real one
+				empty := strings.Repeat(" ", indentOf(l)) + kw + ` ""`
+				nl := append([]string(nil), lines...)
+				nl[i] = empty
+				out = append(out, fault{"empty required parameter of " + kw, nl, i + 1, i + 1})
+				d2 := insertAt(lines, i, []string{empty})
+				out = append(out, fault{"second " + kw + " after one with an empty value", d2, i + 1, i + 2})
+			}
 		case namedTop[kw] != "" && indentOf(l) == 0:
 			// a second declaration with the same name at the end of the document
 			d := insertAt(lines, len(lines), blk)
